@@ -526,9 +526,13 @@ class FileIndex(Index):
             # It removes any readers it reuses from the "reusable" dictionary,
             # so later we can close any readers left in the dictionary.
             def segreader(segment):
-                if segment in reusable:
-                    r = reusable[segment]
+                r = reusable.get(segment)
+                # A segment keeps its ID when documents in it are deleted, so
+                # an open reader can only stand in for the segment if it has
+                # seen the same deletions
+                if r is not None and r.doc_count() == segment.doc_count():
                     del reusable[segment]
+                    r._gen = generation
                     return r
                 else:
                     return SegmentReader(storage, schema, segment,
